@@ -374,27 +374,25 @@ func ruleREPORTCONFLICTS(c *Ctx) {
 		c.Lost(rule, "lalr.compiler.reportConflicts", "function not found")
 		return
 	}
-	for _, srEq := range []bool{true, false} {
-		for _, rrEq := range []bool{true, false} {
+	// sr and rr each range over {the expected value, another value, the *other* counter's
+	// expected value} so that a comparison against the wrong %expect field is visible.
+	const eSR, eRR = 10, 20
+	for _, sr := range []int{eSR, 11, eRR} {
+		for _, rr := range []int{eRR, 21, eSR} {
 			for _, incl := range []bool{true, false} {
 				for _, verbose := range []bool{true, false} {
-					rk := func(eq bool) int {
-						if eq {
-							return 0
-						}
-						return 1
-					}
+					sr, rr := sr, rr
 					cfg := &aiConfig{
 						Load: func(path string, t types.Type) (AV, bool) {
 							switch path {
 							case "c.sr":
-								return avOrd{"sr", rk(srEq)}, true
+								return avOrd{"sr", sr}, true
 							case "c.grammar.ExpectSR":
-								return avOrd{"expectSR", 0}, true
+								return avOrd{"expectSR", eSR}, true
 							case "c.rr":
-								return avOrd{"rr", rk(rrEq)}, true
+								return avOrd{"rr", rr}, true
 							case "c.grammar.ExpectRR":
-								return avOrd{"expectRR", 0}, true
+								return avOrd{"expectRR", eRR}, true
 							case "len(c.conflicts)":
 								return avInt{0, 0}, true
 							case "c.useTransitions":
@@ -410,8 +408,8 @@ func ruleREPORTCONFLICTS(c *Ctx) {
 						},
 					}
 					outs := aiEval(f, []AV{avSym{Name: "c"}, avBool{verbose}, avBool{incl}}, cfg)
-					key := fmt.Sprintf("lalr.compiler.reportConflicts[sr=expected:%v,rr=expected:%v,includeResolved=%v,verbose=%v]", srEq, rrEq, incl, verbose)
-					want := !(srEq && rrEq)
+					key := fmt.Sprintf("lalr.compiler.reportConflicts[sr=%s,rr=%s,includeResolved=%v,verbose=%v]", cntName(sr, eSR, eRR), cntName(rr, eRR, eSR), incl, verbose)
+					want := !(sr == eSR && rr == eRR)
 					var probs []string
 					if len(outs) == 0 {
 						probs = append(probs, "no path")
@@ -473,6 +471,7 @@ func ruleLR0SHIFT(c *Ctx) {
 		want           bool
 	}{
 		{"first shift of a state with a reduction", avInt{0, 0}, avInt{1, 1 << 30}, true},
+		{"terminal (end-of-input) shift added to a state with a reduction and nonterminal shifts", avInt{1, 1 << 30}, avInt{1, 1 << 30}, true},
 	} {
 		cfg := &aiConfig{
 			RecordStores: true,
@@ -482,6 +481,10 @@ func ruleLR0SHIFT(c *Ctx) {
 					return avSym{Name: "from.shifts", Len: sc.shifts}, true
 				case "from.reduce":
 					return avSym{Name: "from.reduce", Len: sc.reduce}, true
+				case "to.symbol":
+					return avInt{0, 0}, true // EOI, a terminal
+				case "c.grammar.Terminals":
+					return avInt{1, 1 << 30}, true
 				}
 				return nil, false
 			},
@@ -512,4 +515,14 @@ func ruleLR0SHIFT(c *Ctx) {
 			c.Ok(rule, key, f.Pos(), "from.lr0 = false is stored on all %d paths", len(outs))
 		}
 	}
+}
+
+func cntName(v, own, other int) string {
+	switch v {
+	case own:
+		return "expected"
+	case other:
+		return "other-counter's-expectation"
+	}
+	return "unexpected"
 }
